@@ -250,7 +250,7 @@ def rand_target(rng):
 # ---- random specs -----------------------------------------------------------------------------------
 ODD_LEAVES = [F('ret_SKIP'), F('ret_STOP'), F('raise_KeyError'), F('raise_ValueError'), F('raise_GlomError'),
               V(SKIP), V(STOP), V(NONE), V(VI(1)), C(VI(3)), P('x'), F('ident'), F('inc'), F('size'),
-              TT(('[', VS('x'))), TT(('.', VS('a'))), TT(), F('is_none'), F('echo')]
+              TT(('[', VS('x'))), TT(('.', VS('a'))), TT(), F('is_none'), F('echo'), F('ret_None'), F('ret_None')]
 
 
 class Gen:
@@ -420,6 +420,11 @@ class Gen:
         n = rng.randint(1, 3)
         for i in range(n):
             st = self.gen(cur, d - 1, chain_step=(i < n - 1))
+            if rng.random() < 0.15:
+                # a chain nested directly in the chain, ended / thinned by a sentinel at an inner position
+                inner = [self.leaf(cur) for _ in range(rng.randint(0, 2))]
+                inner.insert(rng.randint(0, len(inner)), rng.choice([F('ret_STOP'), F('ret_SKIP'), V(STOP)]))
+                st = N(rng.choice(['pipe', 'tuple']), inner)
             if i < n - 1 and leaky(st):
                 st = self.leaf(cur)
             steps.append(st)
@@ -430,7 +435,7 @@ class Gen:
                 break
         if rng.random() < 0.08:
             steps = []
-        return N('pipe' if rng.random() < 0.3 and steps else 'tuple', steps)
+        return N('pipe' if rng.random() < 0.4 and steps else 'tuple', steps)
 
     def g_coalesce(self, tgt, d):
         rng = self.rng
@@ -439,7 +444,9 @@ class Gen:
         for i in range(n):
             if i < n - 1 and rng.random() < 0.6:
                 kids.append(rng.choice([P('x'), F('raise_KeyError'), F('raise_GlomError'), F('raise_ValueError'),
-                                        TT(('[', VS('x'))), V(NONE), V(VI(0)), self.leaf(tgt)]))
+                                        TT(('[', VS('x'))), V(NONE), V(VI(0)), F('ret_None'), self.leaf(tgt)]))
+            elif rng.random() < 0.12:          # an alternative that succeeds with None (must win unless skipped)
+                kids.append(rng.choice([V(NONE), F('ret_None')]))
             else:
                 kids.append(self.gen(tgt, d - 1))
         dflt = rng.choice([None, None, {'kind': 'arg', 'a': C(NONE)}, {'kind': 'arg', 'a': C(SKIP)},
